@@ -463,6 +463,8 @@ func runC16(c *Check) {
 	}
 
 	c.ruleRouterPairing(fRequests, fResp)
+	c.ruleIndexBoundOnSameIndex("R7", "client.(*RemoteClient).GetOutputs")
+	c.ruleRemoveByIdentity("R6", fRequests, c.P.Field("client", "RemoteClient", "removeRequestsChannel"))
 
 	// ---- R6 ownership of the pending list
 	allowed := map[string]bool{"client.(*RemoteClient).runRequests": true, "client.(*RemoteClient).handleRequestResponse": true}
